@@ -160,6 +160,11 @@ func overlayFor(cfg *Config, id string, obls []Obligation) (map[string]string, e
 			ov[dst] = src
 		}
 	}
+	// tun/client embeds ui/build/* (a front-end build product that is not in the source tree): without any file there
+	// the package does not build natively. Supply a placeholder through the overlay (go:embed honours overlays).
+	if ents, _ := os.ReadDir(filepath.Join(cfg.Repo, "tun", "client", "ui", "build")); len(ents) == 0 {
+		ov[filepath.Join(cfg.Repo, "tun", "client", "ui", "build", "index.html")] = filepath.Join(cfg.Verif, "rt", "embed_placeholder.html")
+	}
 	return ov, nil
 }
 
